@@ -14,7 +14,7 @@ RULE = (
     "enumeration of (type, controller, unit variant, value) points from specs/fileformat.yaml: "
     "thorough = every integer of every range (exhaustive); quick = every range of span <= 4096 "
     "completely, larger ones at both ends +-64 and stride 7; plus every enum member, both booleans and "
-    "3 representative MetaModule user-defined controllers over 0..44100. Every point is distinct by "
+    "3 representative MetaModule user-defined controllers over 0..44100; unit-dependent ranges are visited on an object whose unit was switched through every other member first (alternately by assignment and set_raw), right after set_raw, after loading, and on modules loaded from files that carry only the first k controller values. Every point is distinct by "
     "construction; non-trivial = point of a range with negative minimum, or a span that does not divide "
     "32768, or a unit-dependent range, or an enum member with non-zero value"
 )
